@@ -24,7 +24,7 @@ RULE = (
     "case = matrix cell (linter family, language, form in {same-line, ignore-next-line, ignore-start/end block, ignore-file, "
     "repository pattern, linter-level ignore pattern}, placement in/out of scope, naming target/other rule) + a drawn file composed "
     "of >=2 seeds of the target family, seeds of 2 other families and filler; every rule-name spelling (full id, linter prefix, "
-    "prefix.*, deprecated alias, upper case, bare) is tried inside the case. Non-trivial: the file has >=2 violations of the "
+    "prefix.*, deprecated alias in its three forms, each also in upper and Title case, bare) is tried inside the case. Non-trivial: the file has >=2 violations of the "
     "target rule and >=1 of another rule, and the directive is expected to remove >=1 and leave >=1. Distinct = cell x seed shape."
 )
 ASSUMPTIONS = [
@@ -36,7 +36,10 @@ ASSUMPTIONS = [
 BUDGET_S = {"quick": 150, "thorough": 1500}
 
 FORMS = ("sameline", "nextline", "block", "file", "repo", "linter")
-SPELLINGS = ("full", "prefix", "wild", "upper", "alias", "bare")
+SPELLINGS = ("full", "prefix", "wild", "upper", "title", "upper-prefix", "upper-wild", "alias", "alias-full", "alias-wild", "alias-upper",
+             "alias-title-full", "alias-upper-wild", "bare")
+PREFIX_SPELLINGS = ("prefix", "wild", "upper-prefix", "upper-wild")  # name the whole linter; every other spelling names one rule
+_ALIAS = {"improper-logging.print-statement": ("print-statements", "print-statements.detected")}  # src/core/rule_aliases.py
 
 # family -> documented config section(s) carrying a linter-level `ignore:` list
 SECTION = {
@@ -186,6 +189,10 @@ def lint_all(p, cmds):
     return out, anomalies
 
 
+def _title(text):
+    return "-".join(w[:1].upper() + w[1:] for w in text.split("-"))
+
+
 def spell(rule_id, spelling):
     prefix = rule_id.split(".")[0]
     if spelling == "full":
@@ -196,8 +203,18 @@ def spell(rule_id, spelling):
         return prefix + ".*"
     if spelling == "upper":
         return rule_id.upper()
-    if spelling == "alias":
-        return {"improper-logging.print-statement": "print-statements"}.get(rule_id)
+    if spelling == "title":
+        return ".".join(_title(part) for part in rule_id.split("."))
+    if spelling == "upper-prefix":
+        return prefix.upper()
+    if spelling == "upper-wild":
+        return prefix.upper() + ".*"
+    if spelling.startswith("alias"):
+        if rule_id not in _ALIAS:
+            return None
+        cat, full = _ALIAS[rule_id]
+        return {"alias": cat, "alias-full": full, "alias-wild": cat + ".*", "alias-upper": cat.upper(),
+                "alias-title-full": ".".join(_title(part) for part in full.split(".")), "alias-upper-wild": cat.upper() + ".*"}[spelling]
     return ""  # bare
 
 
@@ -323,7 +340,7 @@ def check(case) -> Case:
                 if sp == "bare":
                     removed = lambda v, in_scope=in_scope: v["file_path"] == main and in_scope(v["line"])  # noqa: E731
                 else:
-                    if sp in ("prefix", "wild"):
+                    if sp in PREFIX_SPELLINGS:
                         rmatch = lambda rid, nr=named_rule: rid.split(".")[0] == nr.split(".")[0]  # noqa: E731
                     else:
                         rmatch = lambda rid, nr=named_rule: rid == nr  # noqa: E731
